@@ -97,7 +97,7 @@ def _formula_part(g, res):
         fn = getattr(pf, name)
         # (i) formula on a generic positive field
         arrs = g.face_arrays(fn(g.cell(base)))
-        res["evals"] += 1
+        res["evals"] += len(g.faces)
         for (ax, idx) in g.faces:
             lo, hi = _adj(g, ax, idx)
             want = ref_mean(name, base[lo], base[hi], sz[ax][idx[ax]], sz[ax][idx[ax] + 1])
@@ -130,8 +130,8 @@ def _formula_part(g, res):
         H = g.face_arrays(pf.harmonicMean(g.cell(fld)))
         G = g.face_arrays(pf.geometricMean(g.cell(fld)))
         A = g.face_arrays(pf.arithmeticMean(g.cell(fld)))
-        res["evals"] += 3
         for ax in range(g.d):
+            res["evals"] += int(H[ax].size)
             res["nontrivial"] += int(H[ax].size)
             if not (np.all(H[ax] <= G[ax] * (1 + 8 * EPS)) and np.all(G[ax] <= A[ax] * (1 + 8 * EPS))):
                 add("ordering", "harmonic<=geometric<=arithmetic", "violated on axis %d" % ax)
@@ -146,7 +146,7 @@ def _formula_part(g, res):
         shf = [1] * g.d
         shf[ax] = len(fc[ax])
         want = np.broadcast_to((0.75 + 1.5 * fc[ax]).reshape(shf), arr.shape)
-        res["evals"] += 1
+        res["evals"] += int(arr.size)
         res["nontrivial"] += int(arr.size)
         if not np.all(np.abs(arr - want) <= 32 * EPS * (np.abs(want) + 1)):
             add("linear_exact", "linearMean", "field linear in coordinate %d is not reproduced at the face positions" % ax)
@@ -165,9 +165,9 @@ def _locality_part(g, res):
             fld = base.copy()
             fld[c] = base[c] * 3.0 + 1.0
             arrs = g.face_arrays(fn(g.cell(fld)))
-            res["evals"] += 1
             for ax in range(g.d):
                 changed = arrs[ax] != ref[ax]
+                res["evals"] += int(changed.size)
                 # faces adjacent to cell c along ax: idx[ax] in {c[ax]-1, c[ax]}, transverse idx = c-1
                 allowed = np.zeros_like(changed)
                 tr_ok = all(1 <= c[a] <= g.dims[a] for a in range(g.d) if a != ax)
@@ -228,7 +228,7 @@ def _upwind_part(g, res):
     pats += [[np.abs(a) for a in gen], [-np.abs(a) for a in gen], [np.zeros_like(a) for a in gen], gen]
     for arrs in pats:
         got = g.face_arrays(pf.upwindMean(phi, U.face_from_arrays(g.mesh, arrs)))
-        res["evals"] += 1
+        res["evals"] += len(g.faces)
         for (ax, idx) in g.faces:
             w = want(ax, idx, arrs[ax][idx])
             res["nontrivial"] += 1
